@@ -21,21 +21,26 @@ DASHB == 45
 HELPB == <<104, 101, 108, 112>>
 
 \* ---- the built tree ----------------------------------------------------------
-HelpOpt == [short |-> <<104>>, long |-> HELPB, lvaliases |-> <<>>, takes |-> FALSE, pvs |-> <<>>]
-VersionOpt == [short |-> <<86>>, long |-> <<118,101,114,115,105,111,110>>, lvaliases |-> <<>>, takes |-> FALSE, pvs |-> <<>>]
+HelpOpt == [short |-> <<104>>, long |-> HELPB, lvaliases |-> <<>>, takes |-> FALSE, pvs |-> <<>>, global |-> FALSE, optional |-> FALSE, hint |-> ""]
+VersionOpt == [short |-> <<86>>, long |-> <<118,101,114,115,105,111,110>>, lvaliases |-> <<>>, takes |-> FALSE, pvs |-> <<>>, global |-> FALSE, optional |-> FALSE, hint |-> ""]
 RECURSIVE HelpCopy(_)
 HelpCopy(t) == [name |-> t.name, valiases |-> <<>>, opts |-> <<>>, pos |-> <<>>, hide |-> t.hide, version |-> FALSE,
                 subs |-> [i \in 1..Len(t.subs) |-> HelpCopy(t.subs[i])]]
 HelpHelp == [name |-> HELPB, valiases |-> <<>>, opts |-> <<>>, pos |-> <<>>, hide |-> FALSE, version |-> FALSE, subs |-> <<>>]
-RECURSIVE Built(_, _)
-Built(t, inheritedVersion) ==
-  LET ver == t.version \/ inheritedVersion
-      subs == [i \in 1..Len(t.subs) |-> Built(t.subs[i], FALSE)]
+\* global options are copied into every subcommand that does not define the same long itself (_propagate_global_args);
+\* a tree with `nohelpsub` (disable_help_subcommand) gets no generated help subcommand - one it defines itself is ordinary
+RECURSIVE BuiltG(_, _, _)
+Built(t, inheritedVersion) == BuiltG(t, inheritedVersion, <<>>)
+BuiltG(t0, inheritedVersion, gopts) ==
+  LET t == [t0 EXCEPT !.opts = @ \o SelectSeq(gopts, LAMBDA g : \A i \in 1..Len(t0.opts) : t0.opts[i].long # g.long)]
+      ver == t.version \/ inheritedVersion
+      down == SelectSeq(t.opts, LAMBDA o : o.global)
+      subs == [i \in 1..Len(t.subs) |-> BuiltG(t.subs[i], FALSE, down)]
       helpSub == [name |-> HELPB, valiases |-> <<>>, opts |-> <<>>, hide |-> FALSE, version |-> FALSE,
                   pos |-> <<>>,      \* (the real one has no positional once the help tree is expanded)
                   subs |-> [i \in 1..Len(t.subs) |-> HelpCopy(t.subs[i])] \o <<HelpHelp>>]
   IN [t EXCEPT !.opts = t.opts \o <<HelpOpt>> \o (IF ver THEN <<VersionOpt>> ELSE <<>>),
-               !.subs = IF t.subs = <<>> THEN <<>> ELSE subs \o <<helpSub>>]
+               !.subs = IF t.subs = <<>> THEN <<>> ELSE IF t.nohelpsub THEN subs ELSE subs \o <<helpSub>>]
 
 \* ---- what a level offers / must be mentioned ----------------------------------
 SubWords(t) == Concat([i \in 1..Len(t.subs) |-> <<t.subs[i].name>> \o t.subs[i].valiases])
